@@ -105,6 +105,9 @@ def check_case(exprs, inp, seg, cer, via):
         kind = "offered-values/order" if sorted(o["offered"] or []) == sorted(exp_off) else "offered-values"
         v(kind, exp_off, o["offered"])
         return out
+    if (o["meanings"] or {}) != {q: "Bedeutung " + q for q in exp_off}:
+        v("offered-values/meaning", {q: "Bedeutung " + q for q in exp_off}, o["meanings"])
+        return out
     if not exp_off:
         if o["status"] != "IS_FORBIDDEN":
             v("nothing-offered-not-forbidden", "IS_FORBIDDEN", o["status"])
